@@ -78,9 +78,11 @@ pub fn build_chain_services(
         .name("preload_unverified_block".into())
         .spawn({
             let shared = builder.shared.clone();
+            let is_pending_verify = Arc::clone(&is_pending_verify);
             move || {
                 let preload_unverified_block = PreloadUnverifiedBlocksChannel::new(
                     shared,
+                    is_pending_verify,
                     preload_unverified_rx,
                     unverified_block_tx,
                     preload_unverified_stop_rx,
